@@ -5,6 +5,8 @@ import Csproto.Props.C17
 #print axioms Csproto.C17.bytesMsgV_err_iff
 #print axioms Csproto.C17.opsMsgList_err_iff
 #print axioms Csproto.C17.no_required_size_zero
+#print axioms Csproto.C17.sizeMsgList_zero
+#print axioms Csproto.C17.missList_nil_entries
 #print axioms Csproto.C17.marshal_err_iff
 #print axioms Csproto.C17.marshal_ok_of_complete
 #print axioms Csproto.C17.marshal_empty_message
